@@ -539,16 +539,31 @@ class SplineParser(object):
         self.tie_prev = np.zeros(note_num, dtype=bool)
         notes = np.vectorize(self.meta_note_line, otypes=[object])(spline[note_mask])
         self.total_duration_values[note_mask] = self.note_duration_values
-        # Notes should appear in order within stream so shift tie_next by one to the right
-        # and tie next and inversingly tie_prev also
-        # Case of note to chord tie or chord to note tie is not handled yet
-        for note, to_tie in np.c_[
-            notes[self.tie_next], notes[np.roll(self.tie_next, -1)]
-        ]:
-            to_tie.tie_next = note
-            note.tie_prev = to_tie
-
         elements[note_mask] = notes
+        # Join ties in document order: a note (single or chord member) that
+        # ends or continues a tie is tied to the last note of the same pitch
+        # that started or continued one.
+        open_ties = {}
+        for element in elements:
+            if isinstance(element, tuple):
+                members = element[1]
+            elif isinstance(element, spt.Note):
+                members = [element]
+            else:
+                continue
+            for note in members:
+                marks = getattr(note, "_kern_tie_marks", None)
+                if marks is None:
+                    continue
+                del note._kern_tie_marks
+                pitch = (note.step, note.alter or 0, note.octave)
+                if "]" in marks or "_" in marks:
+                    to_tie = open_ties.pop(pitch, None)
+                    if to_tie is not None:
+                        to_tie.tie_next = note
+                        note.tie_prev = to_tie
+                if "[" in marks or "_" in marks:
+                    open_ties[pitch] = note
 
         # Find Slur indices, i.e. where spline cells contain "(" or ")"
         open_slur_mask = np.char.find(spline[note_mask], "(") != -1
@@ -881,6 +896,9 @@ class SplineParser(object):
                 id=el_id,
             )
         if symbols:
+            tie_marks = [sym for sym in symbols if sym in "[]_"]
+            if tie_marks:
+                note._kern_tie_marks = tie_marks
             self.process_symbol(note, symbols)
         return note
 
